@@ -6,7 +6,7 @@
     Rmcp._send_ipmi_msg            -> sendIpmi
     Rmcp._receive_ipmi_msg         -> receiveIpmi  (as shipped / intended, see below)
     AsfMsg.pack, AsfPing           -> asfPack, pingDatagram
-    Rmcp._receive_asf_msg(AsfPong) -> receivePong
+    Rmcp._receive_asf_msg(AsfPong) -> receivePongV (as shipped / intended), receivePong
 
   It MIRRORS the Python: order of effects (the session sequence number is incremented
   before anything can fail), `struct` semantics for the format characters in use
@@ -230,12 +230,32 @@ def pingDatagram (seqNo : Nat) : Outcome (List Nat) := do
   let sdu ← asfPack pingType pingTag []
   rmcpPack classAsf seqNo sdu
 
-/-- `AsfPong().unpack(sdu)` -/
-def pongUnpack (sdu : List Nat) : Outcome Unit := do
+/-- What `AsfPong.check_data` does with the Supported Interactions byte: as shipped it raises
+DecodingError('SDU malformed') unless the byte is 0, i.e. it refuses every pong of a device that
+advertises RMCP security extensions (bit 7, ASF 2.0) or DASH (bit 5); intended is to take the byte
+as the capability bit field it is (fixes/C05-2.diff). -/
+inductive PongCheck where
+  | asShipped
+  | intended
+  deriving Repr, DecidableEq
+
+/-- the attributes of the `AsfPong` object after `unpack` -/
+structure PongFields where
+  iana : Nat
+  type : Nat
+  tag : Nat
+  oemIana : Nat
+  oemDefined : Nat
+  entities : Nat
+  interactions : Nat
+  deriving Repr, DecidableEq
+
+/-- `AsfPong().unpack(sdu)`; the result is the object's attributes -/
+def pongUnpackV (v : PongCheck) (sdu : List Nat) : Outcome PongFields := do
   let hl := calcsize asfHeader
   let vs ← structUnpack asfHeader (sdu.take hl)
   match vs with
-  | [.int _iana, .int type, .int _tag, .int dl] =>
+  | [.int iana, .int type, .int tag, .int dl] =>
     if sdu.length < hl + dl then .decodingError
     else if sdu.length > hl + dl then .decodingError
     else
@@ -247,17 +267,23 @@ def pongUnpack (sdu : List Nat) : Outcome Unit := do
       else do
         let ws ← structUnpack pongData data
         match ws with
-        | [.int oemIana, .int oemDefined, .int _entities, .int interactions] =>
+        | [.int oemIana, .int oemDefined, .int entities, .int interactions] =>
           -- check_data
           if oemIana = asfIana ∧ oemDefined ≠ 0 then .decodingError
-          else if interactions ≠ 0 then .decodingError
-          else pure ()
+          else if v = .asShipped ∧ interactions ≠ 0 then .decodingError
+          else pure ⟨iana, type, tag, oemIana, oemDefined, entities, interactions⟩
         | _ => .pyError "ValueError"
   | _ => .pyError "ValueError"
 
 /-- `Rmcp._receive_asf_msg(AsfPong)` on the datagram returned by `recvfrom` -/
-def receivePong (dgram : List Nat) : Outcome Unit := do
+def receivePongV (v : PongCheck) (dgram : List Nat) : Outcome PongFields := do
   let (_, cls, sdu) ← rmcpUnpack dgram
-  if cls ≠ classAsf then .decodingError else pongUnpack sdu
+  if cls ≠ classAsf then .decodingError else pongUnpackV v sdu
+
+/-- `Rmcp.ping()`'s use of it (the object is dropped); the session model of C06 builds on this one.
+The variants agree on every pong whose interactions byte is 0 (`receivePongV_variants_agree`). -/
+def receivePong (dgram : List Nat) : Outcome Unit := do
+  let _ ← receivePongV .intended dgram
+  pure ()
 
 end PyIpmi.RmcpWire
